@@ -998,6 +998,102 @@ func reaches(from, to *ssa.Function, inScope map[*ssa.Function]bool, seen map[*s
 	return found
 }
 
+// dataIdempotence: Data() is memoised, success and failure alike, and nothing else writes the
+// memo (C05.R3). What a message reports after somebody has called Data()/Tags()/ToMapStr() on
+// it - a coalescer, say - is the same as before only under this condition, so C15 states it too.
+func (x *aup) dataIdempotence(id string) {
+	r, w := x.r, x.w
+	_ = w
+	r.Rule(id, "idempotence of Data: the cached-result test (data != nil || error != nil) dominates all work; every other path stores a non-nil value into data or error before returning exactly those fields; data/error/tags have no other writer; ToMapStr allocates its result on every call", 8)
+	fn := x.data
+	ps, complete := Paths(fn, PathOpts{MaxVisit: 2})
+	if !complete {
+		r.Undecided("Data paths", fn.Pos(), "path cap exceeded")
+	}
+	for i, p := range ps {
+		if p.End != "return" {
+			continue
+		}
+		ret := p.Ret()
+		key := fmt.Sprintf("Data path#%d [%s]", i, firstLits(p, 3))
+		cached := p.HasLit("p0.data != nil") || p.HasLit("p0.error != nil")
+		stores := 0
+		calls := 0
+		nonNil := false
+		for _, e := range p.Events {
+			if e.Kind == EvCall {
+				calls++
+			}
+			st, ok := e.Instr.(*ssa.Store)
+			if !ok || e.Kind != EvStore {
+				continue
+			}
+			fa, ok := st.Addr.(*ssa.FieldAddr)
+			if !ok || fa.X != ssa.Value(fn.Params[0]) {
+				continue
+			}
+			f := fieldOfAddr(fa)
+			if f == x.fData || f == x.fError {
+				stores++
+				if _, isMk := st.Val.(*ssa.MakeMap); isMk {
+					nonNil = true
+				}
+				if HoldsAt(st.Block(), Term(st.Val)+" != nil") || strings.HasPrefix(Term(st.Val), "errors.New(") || definitelyNonNil(st.Val) {
+					nonNil = true
+				}
+			}
+		}
+		okRet := ret != nil && len(ret.Results) == 2 && Term(ret.Results[1]) == "p0.error" && (Term(ret.Results[0]) == "p0.data" || isNilConst(ret.Results[0]))
+		if cached {
+			r.Check(stores == 0 && calls == 0 && okRet && Term(ret.Results[0]) == "p0.data", key, ret.Pos(), "cached: returns the stored fields, no work", "the cached path does work or does not return the stored fields: "+compactPath(p))
+		} else {
+			r.Check(p.HasLit("p0.data == nil") && p.HasLit("p0.error == nil") && stores >= 1 && nonNil && okRet, key, ret.Pos(), "first call: stores what it returns",
+				"a first-call path returns without caching a non-nil data or error (a second call would parse again and may differ): "+compactPath(p))
+		}
+	}
+	// writers
+	allowed := map[*types.Var]map[string]bool{
+		x.fData:  {fnName(x.data): true},
+		x.fError: {fnName(x.data): true},
+		x.fTags:  {"(*auparse.AuditMessage).auditRuleKeyNew": true},
+	}
+	for fv, fns := range allowed {
+		for _, a := range Writes(w.FieldAccesses(fv)) {
+			okw := fns[fnName(a.Fn)]
+			if a.Kind == "mapupdate" && fv == x.fData {
+				okw = okw && x.w.ownedBy(a.Fn, x.data)
+			}
+			r.Check(okw, "AuditMessage."+fieldName(fv)+" "+a.Kind+" in "+fnName(a.Fn), a.Instr.Pos(), "", "AuditMessage."+fieldName(fv)+" is written ("+a.Kind+") in "+fnName(a.Fn)+": the memoised result can change between calls")
+		}
+	}
+	// auditRuleKeyNew reachable only from enrichData ← Data
+	if akn, err := w.Method("auparse", "AuditMessage", "auditRuleKeyNew"); err == nil {
+		for _, s := range w.CallSites(akn) {
+			r.Check(x.w.ownedBy(s.Caller, x.enrich) && s.Kind == "static", "caller of auditRuleKeyNew: "+fnName(s.Caller), s.Instr.Pos(), "", "tags can be rewritten outside the first Data() call")
+		}
+		for _, s := range w.CallSites(x.enrich) {
+			r.Check(x.w.ownedBy(s.Caller, x.data) && s.Kind == "static", "caller of enrichData: "+fnName(s.Caller), s.Instr.Pos(), "", "enrichData runs outside the first Data() call")
+		}
+	} else {
+		r.Anchor(err)
+	}
+	// offset/RawData writers: only the literal in Parse (lemma offset-invariant premise)
+	for _, fv := range []*types.Var{x.fOffset} {
+		for _, a := range Writes(w.FieldAccesses(fv)) {
+			r.Check(x.w.ownedBy(a.Fn, x.parse) && a.Kind == "store", "AuditMessage."+fieldName(fv)+" written in "+fnName(a.Fn), a.Instr.Pos(), "", "offset is written outside Parse's literal")
+		}
+	}
+	// Tags = Data's error + m.tags
+	rets := returnsOf(x.tags)
+	okT := len(rets) == 1 && len(callsIn(x.tags, x.data)) == 1
+	if okT {
+		undo := autoAlias(x.tags)
+		okT = Term(rets[0].Results[0]) == "p0.tags" && Term(rets[0].Results[1]) == "Data#1#1"
+		undo()
+	}
+	r.Check(okT, "Tags returns (m.tags, Data's error)", x.tags.Pos(), "", "Tags does not return the memoised tags with Data's error")
+}
+
 func propC05(r *Run, w *World) {
 	x := loadAup(r, w)
 	if !x.ok {
@@ -1016,96 +1112,7 @@ func propC05(r *Run, w *World) {
 			"auparse.extractKeyValuePairs→auparse.extractKeyValuePairs": "the argument is group 2 of a kvRegex match of the parameter, a strict substring (at least 'k=' shorter), so the depth is bounded by the input length",
 		})
 	// R3
-	r.Rule("C05.R3", "idempotence of Data: the cached-result test (data != nil || error != nil) dominates all work; every other path stores a non-nil value into data or error before returning exactly those fields; data/error/tags have no other writer; ToMapStr allocates its result on every call", 8)
-	{
-		fn := x.data
-		ps, complete := Paths(fn, PathOpts{MaxVisit: 2})
-		if !complete {
-			r.Undecided("Data paths", fn.Pos(), "path cap exceeded")
-		}
-		for i, p := range ps {
-			if p.End != "return" {
-				continue
-			}
-			ret := p.Ret()
-			key := fmt.Sprintf("Data path#%d [%s]", i, firstLits(p, 3))
-			cached := p.HasLit("p0.data != nil") || p.HasLit("p0.error != nil")
-			stores := 0
-			calls := 0
-			nonNil := false
-			for _, e := range p.Events {
-				if e.Kind == EvCall {
-					calls++
-				}
-				st, ok := e.Instr.(*ssa.Store)
-				if !ok || e.Kind != EvStore {
-					continue
-				}
-				fa, ok := st.Addr.(*ssa.FieldAddr)
-				if !ok || fa.X != ssa.Value(fn.Params[0]) {
-					continue
-				}
-				f := fieldOfAddr(fa)
-				if f == x.fData || f == x.fError {
-					stores++
-					if _, isMk := st.Val.(*ssa.MakeMap); isMk {
-						nonNil = true
-					}
-					if HoldsAt(st.Block(), Term(st.Val)+" != nil") || strings.HasPrefix(Term(st.Val), "errors.New(") || definitelyNonNil(st.Val) {
-						nonNil = true
-					}
-				}
-			}
-			okRet := ret != nil && len(ret.Results) == 2 && Term(ret.Results[1]) == "p0.error" && (Term(ret.Results[0]) == "p0.data" || isNilConst(ret.Results[0]))
-			if cached {
-				r.Check(stores == 0 && calls == 0 && okRet && Term(ret.Results[0]) == "p0.data", key, ret.Pos(), "cached: returns the stored fields, no work", "the cached path does work or does not return the stored fields: "+compactPath(p))
-			} else {
-				r.Check(p.HasLit("p0.data == nil") && p.HasLit("p0.error == nil") && stores >= 1 && nonNil && okRet, key, ret.Pos(), "first call: stores what it returns",
-					"a first-call path returns without caching a non-nil data or error (a second call would parse again and may differ): "+compactPath(p))
-			}
-		}
-		// writers
-		allowed := map[*types.Var]map[string]bool{
-			x.fData:  {fnName(x.data): true},
-			x.fError: {fnName(x.data): true},
-			x.fTags:  {"(*auparse.AuditMessage).auditRuleKeyNew": true},
-		}
-		for fv, fns := range allowed {
-			for _, a := range Writes(w.FieldAccesses(fv)) {
-				okw := fns[fnName(a.Fn)]
-				if a.Kind == "mapupdate" && fv == x.fData {
-					okw = okw && x.w.ownedBy(a.Fn, x.data)
-				}
-				r.Check(okw, "AuditMessage."+fieldName(fv)+" "+a.Kind+" in "+fnName(a.Fn), a.Instr.Pos(), "", "AuditMessage."+fieldName(fv)+" is written ("+a.Kind+") in "+fnName(a.Fn)+": the memoised result can change between calls")
-			}
-		}
-		// auditRuleKeyNew reachable only from enrichData ← Data
-		if akn, err := w.Method("auparse", "AuditMessage", "auditRuleKeyNew"); err == nil {
-			for _, s := range w.CallSites(akn) {
-				r.Check(x.w.ownedBy(s.Caller, x.enrich) && s.Kind == "static", "caller of auditRuleKeyNew: "+fnName(s.Caller), s.Instr.Pos(), "", "tags can be rewritten outside the first Data() call")
-			}
-			for _, s := range w.CallSites(x.enrich) {
-				r.Check(x.w.ownedBy(s.Caller, x.data) && s.Kind == "static", "caller of enrichData: "+fnName(s.Caller), s.Instr.Pos(), "", "enrichData runs outside the first Data() call")
-			}
-		} else {
-			r.Anchor(err)
-		}
-		// offset/RawData writers: only the literal in Parse (lemma offset-invariant premise)
-		for _, fv := range []*types.Var{x.fOffset} {
-			for _, a := range Writes(w.FieldAccesses(fv)) {
-				r.Check(x.w.ownedBy(a.Fn, x.parse) && a.Kind == "store", "AuditMessage."+fieldName(fv)+" written in "+fnName(a.Fn), a.Instr.Pos(), "", "offset is written outside Parse's literal")
-			}
-		}
-		// Tags = Data's error + m.tags
-		rets := returnsOf(x.tags)
-		okT := len(rets) == 1 && len(callsIn(x.tags, x.data)) == 1
-		if okT {
-			undo := autoAlias(x.tags)
-			okT = Term(rets[0].Results[0]) == "p0.tags" && Term(rets[0].Results[1]) == "Data#1#1"
-			undo()
-		}
-		r.Check(okT, "Tags returns (m.tags, Data's error)", x.tags.Pos(), "", "Tags does not return the memoised tags with Data's error")
-	}
+	x.dataIdempotence("C05.R3")
 	// R4
 	r.Rule("C05.R4", "errors surface: in ToMapStr the err != nil edge stores the 'error' key with err.Error()", 1)
 	{
